@@ -565,6 +565,8 @@ pub fn terms_oracle(c: &TermsCase) -> Verdict {
             let module = s(0).replace("Elixir.", "");
             // a function literally called nil is indistinguishable from an absent one (the wrapper's own convention)
             let fun = if s(1) == "nil" { "nil_".to_string() } else { s(1) };
+            // now and then the arguments are a bare atom from the same vocabulary (`undefined`, `false`, ... are ordinary values; only `nil` means absent)
+            let t0 = if c.arity % 4 == 0 { OwnedTerm::atom(&s(2)) } else { t0.clone() };
             let x = if c.opt && not_nil(&t0) { FunctionClauseError::new(module, fun, c.arity, t0.clone()) } else { FunctionClauseError::empty() };
             exc_check!(FunctionClauseError, x, |a, b| a.module == b.module
                 && a.function == b.function
@@ -782,7 +784,7 @@ pub fn terms_strategy() -> impl Strategy<Value = TermsCase> {
         // a two-letter alphabet: duplicate keys are the rule
         2 => "[ab]".prop_map(|s| s),
         1 => "[A-Z][a-zA-Z.]{0,10}".prop_map(|s| s),
-        1 => prop::sample::select(vec!["", "nil", "true", "message", "héllo", "日本", "Elixir.Foo", "a b", "key"]).prop_map(|s| s.to_string()),
+        1 => prop::sample::select(vec!["", "nil", "true", "message", "héllo", "日本", "Elixir.Foo", "a b", "key", "undefined", "false", "null", "none", "__struct__", "__exception__"]).prop_map(|s| s.to_string()),
     ];
     (0u8..16, prop::collection::vec(arb_value(cfg), 0..6), prop::collection::vec(strs, 0..6), arb_choices(10), any::<u8>(), any::<bool>()).prop_map(
         |(kind, values, strings, repr, arity, opt)| {
